@@ -13,6 +13,7 @@ from mc import catalog as C
 from mc.common import bump, new_result
 from mc.harness import context_for, dev_signature
 from mc.numerics import base_row
+from nflows import transforms as T
 from nflows.transforms.base import InputOutsideDomain
 
 PROPERTY = "C17"
@@ -46,6 +47,9 @@ def subjects(tier):
     for t in (1, 2.5):
         out.append(("Sigmoid", {"temperature": t}, R, (0.0, 1.0, True, True)))
         out.append(("Logit", {"temperature": t}, (0.0, 1.0, True, True), R))
+    # a small non-default clamp eps on a module left in its construction dtype (float32) while the data are float64 as well as float32
+    out.append(("Sigmoid", {"temperature": 1, "eps_unconverted": 1e-8}, R, (0.0, 1.0, True, True)))
+    out.append(("Logit", {"temperature": 1, "eps_unconverted": 1e-8}, (0.0, 1.0, True, True), R))
     out.append(("CauchyCDF", {}, R, (0.0, 1.0, True, True)))
     out.append(("CauchyCDFInverse", {}, (0.0, 1.0, True, True), R))
     for fam in ("linear", "quadratic", "cubic", "rq"):
@@ -134,6 +138,8 @@ def check_case(case):
     dtype = DT[dname]
     npdt = np.float64 if dname == "float64" else np.float32
     m = C.materialise(s, cfg, pname, seed, dtype=dtype)
+    if "eps_unconverted" in over:
+        m = (T.Logit if sname == "Logit" else T.Sigmoid)(temperature=over["temperature"], eps=over["eps_unconverted"]).eval()  # no .double(): used as constructed
     shape = s.shape(cfg) if direction == "forward" else s.out_shape(cfg)
     D = int(np.prod(shape))
     B = 3
@@ -184,6 +190,8 @@ def all_cases(tier, seed):
         pats = [p for p in ("zero", "pat1") if p in s.patterns] or ["init"]
         for pname in pats:
             for dname in DT:
+                if "eps_unconverted" in over and dname == "float32":
+                    continue  # (1 - 1e-8 is not a float32: with float32 data such an eps is the user's mistake, not the library's)
                 for direction, spec in (("forward", fspec), ("inverse", ispec)):
                     if spec is None and sname.startswith(("splinefn_", "Piecewise", "MaskedPiecewise")):
                         continue  # (spline subjects: the unrestricted case is the one with tails, enumerated separately)
